@@ -5,7 +5,7 @@ MANIFEST = {
                  'engine) + trace monitors on generated pause/resume histories',
     'text': 'Theorems over Mistral.Engine, for every spec/world/event: pause_acknowledged; no_creation_while_paused '
             '(no task execution is created by any delivery or command other than resume while PAUSED); '
-            'paused_stays_paused. ENGINE COMMANDS (Mistral.Props.C11X over Mistral.Engine.stepX, Model/EngineX.lean: fail / succeed / pause / noop in on-clauses, dispatcher._process_commands / _rearrange_commands incl. the sort, the command BACKLOG, RunExistingTask commands; tied by the core stream whose programs carry engine commands): no_dispatch_into_completed (EVERY world, every event: in a completed workflow no task execution is created and the state does not change, ALSO NOT THROUGH THE BACKLOG - a backlog polled there is dropped), no_dispatch_into_completed_reachable, pause_command_saves_rest (the commands after a `pause` command are saved, nothing of them is created), backlog_untouched_while_paused (never lost), backlog_restored_once (when polled in a RUNNING workflow each saved task command is dispatched exactly once: one execution + one start request each, backlog empty afterwards), restored_join_is_plain (known finding: a join command restored from the backlog has lost wait / unique_key and starts at once as a plain task). '
+            'paused_stays_paused (with engine commands: Mistral.Props.C10X.pause_acknowledgedX, pause_command_acknowledged, paused_stays_pausedX / paused_stays_paused_stepX; Props.C11X.no_creation_while_pausedX). ENGINE COMMANDS (Mistral.Props.C11X over Mistral.Engine.stepX, Model/EngineX.lean: fail / succeed / pause / noop in on-clauses, dispatcher._process_commands / _rearrange_commands incl. the sort, the command BACKLOG, RunExistingTask commands; tied by the core stream whose programs carry engine commands): no_dispatch_into_completed (EVERY world, every event: in a completed workflow no task execution is created and the state does not change, ALSO NOT THROUGH THE BACKLOG - a backlog polled there is dropped), no_dispatch_into_completed_reachable, pause_command_saves_rest (the commands after a `pause` command are saved, nothing of them is created), backlog_untouched_while_paused (never lost), backlog_restored_once (when polled in a RUNNING workflow each saved task command is dispatched exactly once: one execution + one start request each, backlog empty afterwards), restored_join_defers (since repo_patches/32 a join command restored from the backlog keeps wait / unique_key and defers to the WAITING execution of the join like a fresh one; was the finding join-created-idle). '
             'The model is tied to the real engine by the `core` stream: after EVERY event '
             '(message, post-commit operation, scheduler job, action result, pause/resume/stop) committed rows and '
             'pending deliveries of the real engine must equal the model. "SAME RESULT AFTER RESUME" IS A THEOREM of the '
@@ -49,7 +49,7 @@ RULE = ('stream core: data-free single-activation programs x oracles x schedules
         'resume at random points, paired with the unpaused run; non-trivial = a join or an operator command in the '
         'trace; distinct = distinct (definition, oracle, schedule seed, commands); stream sem as in C02')
 TRUSTED = ['harness seams (post-commit thread, RPC client, executor, scheduler dispatcher) replaced by recorders']
-LEAN_MODULES = ['Mistral.Props.C10', 'Mistral.Props.C11X', 'Mistral.Props.C10Tree', 'Mistral.Props.C02Sem']
+LEAN_MODULES = ['Mistral.Props.C10', 'Mistral.Props.C11X', 'Mistral.Props.C10Tree', 'Mistral.Props.C02Sem', 'Mistral.Props.C01X', 'Mistral.Props.C10X']
 
 
 def correspond(ctx):
